@@ -126,12 +126,13 @@ def check_case(case):
         r = out[name][i]
         if not (r.x == kin["x"] and r.Q2 == kin["Q2"] and getattr(r, "y", None) == kin["y"]):
             v.fail(f"C11:kinematics:{kind}", "returned kinematics differ from the requested ones")
+        floor = max(abs(a), abs(b), abs(c)) * run.noise_floor(t1, t2, t3)
         for k in xs:
             exp = a * t1[k] + b * t2[k] + c * t3[k]
             s = abs(a) * run.maxabs(t1[k]) + abs(b) * run.maxabs(t2[k]) + abs(c) * run.maxabs(t3[k])
             d = run.maxabs(xs[k] - exp)
-            v.metric("combination", d / (RTOL * s + 1e-300))
-            if not d <= RTOL * s + 1e-300:
+            v.metric("combination", d / (RTOL * s + floor))
+            if not d <= RTOL * s + floor:
                 v.fail(
                     f"C11:combination:{kind}",
                     f"{name} != {a:.6g}*{sfk[0]} + {b:.6g}*{sfk[1]} + {c:.6g}*{sfk[2]}: |d|={d:.3e} scale {s:.3e} key {k} "
